@@ -25,11 +25,11 @@ def run(ctx):
         kind = rng.choice(gen.VIOLATIONS)
         r = gen.inject(rng, L, kind)
         if r:
-            cases.append((kind,) + r)
+            cases.append((kind,) + tuple(r[:3]) + (list(r[3]) if len(r) > 3 else [],))
     stores = [(pipe.single("\n".join(c[1]) + "\n"), "a.s") for c in cases]
     dis, parsed = pipe.diag_compare(ctx, stores)
     failing, per_kind = [], {}
-    for (kind, L, code, marker), (sa, ia, sm, im) in zip(cases, parsed):
+    for (kind, L, code, marker, extra), (sa, ia, sm, im) in zip(cases, parsed):
         per_kind[kind] = per_kind.get(kind, 0) + 1
         if sa != "ok":
             failing.append(dict(program="\n".join(L), injected=kind, why="linting ends with %s" % sa))
@@ -46,6 +46,11 @@ def run(ctx):
         on_line = [x for x in hits if want_line is None or int(x[4][0].split(".")[0]) == want_line]
         if kind == "invalid-jump-to-function":
             on_line = hits       # reported at the entered function's first instruction (the jump is the related location)
+        for ex in extra:          # further places where the same violation occurs
+            el = L.index(ex)
+            if not [x for x in hits if int(x[4][0].split(".")[0]) == el]:
+                on_line = []
+                want_line = el
         if not on_line:
             failing.append(dict(program="\n".join(L), injected=kind, marker=marker,
                                 why="no %r diagnostic on line %s (got %s)" % (TITLE[code], want_line + 1 if want_line is not None else "?",
